@@ -24,10 +24,22 @@ def main():
         # editable install, also in worker processes
         sys.path.insert(0, repo)
         os.environ["PYTHONPATH"] = repo + os.pathsep + os.environ.get("PYTHONPATH", "")
-        import typhon
-        assert os.path.realpath(typhon.__file__).startswith(os.path.realpath(repo)), typhon.__file__
-    import vlib
-    mod = importlib.import_module("props." + a.prop.lower())
+        try:
+            import typhon
+            assert os.path.realpath(typhon.__file__).startswith(os.path.realpath(repo)), typhon.__file__
+        except AssertionError:
+            print("INFRA-ERROR TYPHON_REPO is not importable as typhon", file=sys.stderr)
+            sys.exit(2)
+        except Exception:
+            pass   # a broken import of the library under test is the check's business, not ours
+    try:
+        import vlib
+        mod = importlib.import_module("props." + a.prop.lower())
+    except Exception:
+        import traceback
+        traceback.print_exc()
+        print("INFRA-ERROR cannot load the check", file=sys.stderr)
+        sys.exit(2)
     if a.replay:
         vlib.main_wrapper(lambda: mod.replay(a.replay))
     else:
